@@ -50,11 +50,14 @@ def captured_table():
     """Wrap results_table.init so the harness can see the table compute() builds."""
     rt = sys.modules["nuspacesim.results_table"]
     saved = rt.init
-    box = {"table": None, "calls": 0}
+    box = {"table": None, "calls": 0, "driver": None}
 
     def init(*a, **k):
         t = saved(*a, **k)
         box["table"] = t
+        # the frame that builds the table is the one that drives the stages (compute() itself, or
+        # whatever compute() delegates to after a refactoring)
+        box["driver"] = sys._getframe(1)
         box["calls"] += 1
         return t
 
